@@ -15,6 +15,7 @@
 //! | hex-long          | fixed-size byte strings                     | one byte more                       |
 //! | hex-odd           | fixed-size byte strings                     | half a byte fewer                   |
 //! | hex-baddigit      | every non-empty byte string / program       | one digit replaced by a non-hex char|
+//! | hex-odd-long      | every fixed-size byte string                | one surplus character (2N+1 chars)  |
 //! | tuple-short/-long | fixed-size tuples                           | last element dropped / duplicated   |
 //! | array-short/-long | [T; N]                                      | last element dropped / duplicated   |
 //! | none-for-required | every position that is not an Option        | None                                |
@@ -365,6 +366,10 @@ impl<'a, 'py> Walker<'a, 'py> {
                 let long = format!("{s}{:02x}", self.rng.u8());
                 let new = self.str_node(&long);
                 self.attempt("hex-long", shape, slot, node, Some(&new), path)?;
+                // one surplus CHARACTER (an odd number of digits, one nibble too many): a hex digit or not
+                let extra = *self.rng.pick(&['0', 'f', '7', 'a', 'z', '!', 'G']);
+                let new = self.str_node(&format!("{s}{extra}"));
+                self.attempt("hex-odd-long", shape, slot, node, Some(&new), path)?;
             }
             Shape::VarHex | Shape::ProgramHex => {
                 let s: String = node.extract().map_err(|_| format!("registry shape says hex string at {path}, JSON has {}", py_value(node, 0)))?;
